@@ -194,7 +194,9 @@ def bigfile_cases(ctx: Ctx):
 def check_bigfile(ctx: Ctx, case) -> None:
     shift = case["shift"]
     items = []
-    for j in range(6000):
+    # thorough tier: every third shift uses a section of ~1.4 million characters (block sizes up to 1 MiB)
+    n_groups = 42000 if (ctx.tier == "thorough" and shift % 3 == 0) else 6000
+    for j in range(n_groups):
         t = 1000 + j * 7
         items.append([t, "N", j % 5, 0])
         if j % 2 == 0:
